@@ -3,6 +3,7 @@
 use std::env;
 
 mod cpulist_h;
+mod procselect_h;
 
 fn main() {
     vrt::quiet_panics();
@@ -11,6 +12,8 @@ fn main() {
         Some("cpulist-emit") => cpulist_h::emit_cases(&args[2], &args[3], args[4].parse().unwrap()),
         Some("cpulist-parse") => cpulist_h::parse_cases(&args[2], &args[3], args[4].parse().unwrap()),
         Some("cpulist-random") => cpulist_h::random(&args[2], args[3].parse().unwrap(), args[4].parse().unwrap()),
+        Some("procselect") => procselect_h::cases(&args[2], &args[3], args[4].parse().unwrap()),
+        Some("procselect-random") => procselect_h::random(&args[2], args[3].parse().unwrap()),
         _ => {
             eprintln!("usage: h_cpus <cpulist-emit|cpulist-parse|cpulist-random> ...");
             std::process::exit(2);
